@@ -23,6 +23,9 @@ class EdgeListToNetwork:
         for e, name, motif_id in zip(
             edgelist.edge_list, edgelist.topologies, edgelist.motif_id
         ):
+            # a generator stores an edge as its build function returned it: a pair
+            # written as a list is an edge too, but cannot key a dict
+            e = tuple(e)
             topologies[e] = name
             motif_ids[e] = motif_id
 
